@@ -29,6 +29,8 @@ struct Dev {
     mem: Vec<u8>,
     log: Vec<Vec<i128>>,
     reject: Vec<usize>,
+    /// accesses whose acknowledge is lost: the device performs them, the host is told they failed
+    lost: Vec<usize>,
     count: usize,
 }
 
@@ -50,7 +52,11 @@ impl Dev {
 impl Device for Dev {
     fn read_mem(&mut self, address: i64, buf: &mut [u8]) -> Result<(), Box<dyn std::error::Error + Send + Sync>> {
         self.log.push(vec![0, address as i128, buf.len() as i128]);
+        let lost = self.lost.contains(&self.count);
         let off = self.check(address, buf.len())?;
+        if lost {
+            return Err("acknowledge lost".into());
+        }
         buf.copy_from_slice(&self.mem[off..off + buf.len()]);
         Ok(())
     }
@@ -58,8 +64,12 @@ impl Device for Dev {
         let mut e = vec![1, address as i128, data.len() as i128];
         e.extend(data.iter().map(|b| *b as i128));
         self.log.push(e);
+        let lost = self.lost.contains(&self.count);
         let off = self.check(address, data.len())?;
         self.mem[off..off + data.len()].copy_from_slice(data);
+        if lost {
+            return Err("acknowledge lost".into());
+        }
         Ok(())
     }
 }
@@ -107,6 +117,11 @@ fn run_op<T: ValueStore, U: CacheStore>(
     if p[0] == "rej" {
         let k: usize = p[1].parse().unwrap();
         dev.reject.push(dev.count + k);
+        return vec![0];
+    }
+    if p[0] == "lost" {
+        let k: usize = p[1].parse().unwrap();
+        dev.lost.push(dev.count + k);
         return vec![0];
     }
     let nid: NodeId = match store.id_by_name(p[1]) {
@@ -234,7 +249,7 @@ fn run(t: &[&str]) -> Vec<i128> {
     let flags: u32 = t[1].parse().unwrap();
     let xml = String::from_utf8(hex(&t[2][1..])).unwrap();
     let base: i64 = t[3].parse().unwrap();
-    let mut dev = Dev { base, mem: hex(&t[4][1..]), log: vec![], reject: vec![], count: 0 };
+    let mut dev = Dev { base, mem: hex(&t[4][1..]), log: vec![], reject: vec![], lost: vec![], count: 0 };
     let ops = &t[5..];
     let mut out;
     if flags & 1 == 1 {
